@@ -60,6 +60,7 @@ type World struct {
 	broken   string              // which invariant was deliberately violated ("" = consistent)
 	prefer   func(*World) *draft // the builder whose validator reads the broken entry
 	forced   *uinfo              // an output record the next transfer must spend
+	plain    bool                // directed scenarios: no incidental variation in the builders
 }
 
 var ten8 = big.NewInt(100000000)
